@@ -209,8 +209,13 @@ class SymWalker:
                 return Cmp(inv[a.op], a.a, a.b)
             if rv["op"] == "PtrMetadata":
                 base = rv["a"]
-                nm = self.names.get(base.get("l"), "slice")
-                return Aff.var(f"len({nm})")
+                nm = self.names.get(base.get("l"))
+                if nm is None:
+                    # a copy of a named parameter (the array handed on to an inlined helper)
+                    v = env.get(base.get("l"))
+                    if isinstance(v, Aff) and len(v.terms) == 1 and v.const == 0 and list(v.terms.values()) == [1]:
+                        nm = next(iter(v.terms))
+                return Aff.var(f"len({nm or 'slice'})")
             return Opaque(rv["op"])
         if k == "discr":
             v = self.place_val(env, rv["place"])
